@@ -1,10 +1,12 @@
 #!/bin/bash
-# Builds the framework offline from files on disk (all check binaries, all flavours).
+# Builds the framework offline from files on disk (all check binaries, all flavours they are run in).
 set -e
 ROOT="$(cd "$(dirname "$0")" && pwd)"
 export CARGO_NET_OFFLINE=true CARGO_TARGET_DIR="$ROOT/mc/target"
 cd "$ROOT/mc"
 cargo build --offline -q --profile chk --bins
-cargo build --offline -q --release --bins
-cargo build --offline -q --bin gv-robust 2>/dev/null || true
+for b in gv-codec gv-cfi gv-conv gv-robust; do
+  [ -f "gv/src/bin/$b.rs" ] && cargo build --offline -q --release --bin $b
+done
+cargo build --offline -q --bin gv-robust
 echo "setup ok"
